@@ -20,7 +20,7 @@ import (
 func init() {
 	Register("C16", &Info{
 		Run:   runC16,
-		Quick: 2400, Thor: 120000,
+		Quick: 2400, Thor: 300000,
 		Rule: "a world = one parrot whose spec carries a GREASE ECH extension (Chrome 120/120_PQ/131/133, Firefox 120, generated specs with BoringGREASEECH) and no real ECH config, one real connection against a plain or HelloRetryRequest-forcing server (repository, std, or the reference server whose HelloRetryRequest also carries a cookie; hellos taken from the wire), optionally while 10-60 other hellos are built by another task of the same process at a drawn scheduler step, plus 11 further hellos built in the same world; oracle: outer type, KDF/AEAD pair from the spec's candidate list, 32-byte encapsulated key, payload length = candidate + 16, identical extension bytes in CH1 and CH2, config id / key / payload not all equal across the 12 connections; non-trivial = GREASE ECH extension on the wire (HRR stratum: CH2 exists); distinct = (parrot, kdf, aead, payload length, hrr)",
 		Assumptions: []string{"the candidate lists are read from the public fields of the spec's GREASEEncryptedClientHelloExtension (they are the definition of the expected values)",
 			"freshness: 12 draws of an 8-bit config id all equal has probability 256^-11 for a uniform source"},
@@ -29,7 +29,7 @@ func init() {
 	})
 	Register("C17", &Info{
 		Run:   runC17,
-		Quick: 7500, Thor: 250000,
+		Quick: 7500, Thor: 1000000,
 		Rule: "a world = one TLS 1.3 fingerprint (parrots by stratum, randomized, generated specs; no PSK, no real ECH) x one classical group the hello lists but sent no share for, forced by the server's single-entry CurvePreferences (repository server, std server, or the reference server which also puts a cookie of 1..4000 bytes, including the lengths around 255/256/511/512, into the HelloRetryRequest); 15% of the worlds send a HelloRetryRequest the client must refuse (group of any share already sent, or unlisted group; with or without cookie); oracle: structural diff of CH1 and CH2 taken from the wire (everything equal except key_share, cookie, padding), key_share = exactly one share of the requested group with the right size, handshake completes and echoes; non-trivial = CH2 exists; distinct = (fingerprint, group, peer)",
 		Assumptions: []string{"a refused HelloRetryRequest = no second ClientHello on the wire and no completed handshake"},
 		Real:        []string{"utls client from /repo", "utls or std server"},
@@ -37,7 +37,7 @@ func init() {
 	})
 	Register("C18", &Info{
 		Run:   runC18,
-		Quick: 6000, Thor: 250000,
+		Quick: 6000, Thor: 800000,
 		Rule: "a world = one fingerprint x 3 real connections in which the server is configured to select one of the shares the hello carries (each offered share in turn, by run index) + 6 further hellos built in the same world; oracle: every non-GREASE share on the wire has the size its group requires (X25519 32, P-256 65, P-384 97, P-521 133, hybrids 1216), no key share / client random / non-empty session id repeats among the world's hellos, the handshake completes for the selected share (equal secrets = Finished verifies and data echoes); non-trivial = the server selected a share the hello carried; distinct = (fingerprint, selected group, share index)",
 		Assumptions: []string{"QUIC hellos (empty legacy session id) are checked under C23"},
 		Real:        []string{"utls client from /repo", "utls or std server"},
